@@ -298,6 +298,15 @@ def no_value(seed):
         t = solve(pep, return_primal_or_dual=mode, solver='SCS' if seed % 2 else 'CLARABEL')
         if t is not None:
             fails.append(('C16', 'none', '%s model, mode %s: solve returned %r' % (h['kind'], mode, t)))
+    for verbose in (1, 2, -1):
+        # the reporting branches (status line, solver log) must not turn "no value" into an exception or a number
+        try:
+            with quiet():
+                t = pep.solve(verbose=verbose, solver='CLARABEL')
+            if t is not None:
+                fails.append(('C16', 'none', '%s model, verbose=%d: solve returned %r' % (h['kind'], verbose, t)))
+        except Exception as e:       # noqa
+            fails.append(('C16', 'none.exception', '%s model, verbose=%d: solve raised %s instead of returning no value' % (h['kind'], verbose, type(e).__name__)))
     from PEPit.point import Point
     accessors = [('leaf point', Point.list_of_leaf_points[0].eval)] + [('point', p.eval) for p in h['points']] + \
                 [('expression', e.eval) for e in h['exprs']] + [('objective', pep.objective.eval)] + \
@@ -334,6 +343,24 @@ def invalid_options(seed):
             pass
         except Exception as e:
             fails.append(('C16', 'invalid_option.exception', 'invalid option %r raised %s, not ValueError' % (kw, type(e).__name__)))
+    # a back-end that is not installed falls back to cvxpy: the options must be treated as on the direct path
+    import importlib.util
+    if importlib.util.find_spec('mosek') is None:
+        for bad in ('both', 'Dual', ''):
+            pep, h = models.build('T_gd_ssc', seed)
+            try:
+                with quiet():
+                    t = pep.solve(wrapper='mosek', verbose=0, return_primal_or_dual=bad)
+                fails.append(('C16', 'invalid_option.fallback', 'invalid return_primal_or_dual=%r accepted on the fall-back path (requested back-end not installed), solve returned %r' % (bad, t)))
+            except ValueError:
+                pass
+            except Exception as e:       # noqa
+                fails.append(('C16', 'invalid_option.exception', 'fall-back path with return_primal_or_dual=%r raised %s, not ValueError' % (bad, type(e).__name__)))
+        pep, h = models.build('T_gd_ssc', seed)
+        with quiet():
+            tp = pep.solve(wrapper='mosek', verbose=0, return_primal_or_dual='primal')
+        if tp is None or abs(tp - pep.objective.eval()) > 1e-9 * (1 + abs(tp)):
+            fails.append(('C16', 'invalid_option.fallback_mode', 'fall-back path: primal mode returned %r, the objective evaluates to %r' % (tp, pep.objective.eval())))
     # options of the primitive steps (real DSL objects): an unknown value must be rejected, whatever its spelling or type
     from PEPit import PEP
     from PEPit.functions import SmoothStronglyConvexFunction
